@@ -199,6 +199,7 @@ class Executor(object):
         self.ctx = None
         self.axioms = []
         self.probes = []        # (name, assumptions): must not be refutable (vacuity guard)
+        self.heavy_ids = set()  # assumptions (semantic axiom bundles) that frame obligations do not need
 
     def _owner_is(self, fnode, nd):
         # loops of nested function definitions belong to the nested function
@@ -211,7 +212,12 @@ class Executor(object):
 
     # -- obligations ---------------------------------------------------------
     def oblige(self, name, path, goal, tags=('functional',), line=None, extra=None):
-        assumptions = list(self.axioms) + list(path.pc) + list(extra or [])
+        pcs = path.pc
+        if self.heavy_ids and ('frame' in tags or ':unchanged:' in name or name.endswith('iterated_container_unchanged')
+                               or ':alloc:' in name):
+            # assumption slicing (sound: fewer assumptions): pure heap-frame goals do not need the semantics axioms
+            pcs = [a for a in path.pc if a.get_id() not in self.heavy_ids]
+        assumptions = list(self.axioms) + list(pcs) + list(extra or [])
         # line numbers in names are relative to the function's first line, so that
         # unrelated edits elsewhere in the file do not rename obligations
         base = self.fnode.lineno
@@ -316,6 +322,12 @@ class Executor(object):
             return Coll('pair', h.rel_of(sv.t), False, src=('rels', sv.t))
         if sv.ty == 'items':
             return Coll('item', h.ddom(sv.t), True, src=('dd', sv.t), pair_second=sv.t)
+        if sv.ty == 'fseq':
+            ref = sv.t
+            return Coll('seq', None, True, src=('fs_el', ref), length=h['fs_len'][ref],
+                        elem=lambda j, h=h, ref=ref: SV('F', h['fs_el'][ref][j]))
+        if sv.ty == 'seqval':
+            return Coll('seq', None, True, length=sv.x[0], elem=sv.x[1])
         if sv.ty == 'values':
             return Coll('value', h.ddom(sv.t), True, src=('dd', sv.t), pair_second=sv.t)
         if sv.ty == 'reflist':
@@ -357,6 +369,10 @@ class Executor(object):
 
     def ev_List(self, e, path):
         vs = [self.ev(x, path) for x in e.elts]
+        if not vs and self.k.hints.get('list_kind') == 'fseq':
+            r, h = path.heap.new()
+            path.heap = h.with_(fs_len=z3.Store(h['fs_len'], r, z3.IntVal(0)))
+            return SV('fseq', r)
         if not vs:
             return SV('clist', None, [])
         return SV('clist', None, vs)
@@ -588,6 +604,12 @@ class Executor(object):
         g = e.generators[0]
         src = self.ev(g.iter, path)
         coll = self.as_coll(src, path)
+        if coll.kind == 'seq':
+            for x_ in self.E.ext:
+                r = x_.seq_comprehension(self.E, self, e, g, coll, path)
+                if r is not None:
+                    return r
+            raise Unsupported('comprehension over a sequence at line %d' % e.lineno)
         # bind the target to an arbitrary element
         sub = path.fork()
         if coll.kind == 'pair':
@@ -874,7 +896,7 @@ class Executor(object):
         entry_env = dict(path.env)
         tag = 'loop%d' % ordinal
         if coll is not None:
-            seen0 = {'H': hp.empty_set(), 'pair': hp.empty_rel(), 'item': hp.empty_set(), 'value': hp.empty_set(),
+            seen0 = {'seq': z3.IntVal(0), 'H': hp.empty_set(), 'pair': hp.empty_rel(), 'item': hp.empty_set(), 'value': hp.empty_set(),
                      'ref': z3.K(I, z3.BoolVal(False)), 'F': z3.K(F, z3.BoolVal(False))}[coll.kind]
         else:
             seen0 = None
@@ -902,6 +924,9 @@ class Executor(object):
             seen = hp.fresh('seen', seen0.sort())
         else:
             seen = None
+        if coll is not None and coll.kind == 'seq':
+            # the length/elements of an iterated list object are read at loop entry (E6)
+            pass
         lc = LoopCtx(self.ctx, hv, entry_heap, entry_env, seen, coll, hv.ghosts)
         inv = invf(lc)
         for name, f in inv:
@@ -955,6 +980,8 @@ class Executor(object):
         return out
 
     def _seen_subset(self, seen, coll):
+        if coll.kind == 'seq':
+            return z3.And(seen >= 0, seen <= coll.length)
         if coll.kind == 'pair':
             x, y = hp.fresh('x!u', H), hp.fresh('y!u', H)
             return z3.ForAll([x, y], z3.Implies(seen[x, y], coll.mem[x, y]))
@@ -965,6 +992,8 @@ class Executor(object):
         return z3.ForAll([x], z3.Implies(seen[x], coll.mem[x]))
 
     def _seen_all(self, seen, coll):
+        if coll.kind == 'seq':
+            return seen == coll.length
         if coll.kind == 'pair':
             x, y = hp.fresh('x!v', H), hp.fresh('y!v', H)
             return z3.ForAll([x, y], seen[x, y] == coll.mem[x, y])
@@ -976,6 +1005,8 @@ class Executor(object):
 
     def _pick(self, coll, seen, path):
         h = path.heap
+        if coll.kind == 'seq':
+            return coll.elem(seen), seen < coll.length
         if coll.kind == 'H':
             x = hp.fresh('it', H)
             cond = coll.mem[x]
@@ -1012,6 +1043,8 @@ class Executor(object):
         raise Unsupported('iteration over %s' % coll.kind)
 
     def _seen_has(self, seen, coll, elem):
+        if coll.kind == 'seq':
+            return seen >= 1
         if coll.kind == 'pair':
             return seen[elem.t[0], elem.t[1]]
         if coll.kind in ('item', 'value'):
@@ -1019,6 +1052,8 @@ class Executor(object):
         return seen[elem.t]
 
     def _seen_add(self, seen, coll, elem):
+        if coll.kind == 'seq':
+            return seen + 1
         if coll.kind == 'pair':
             return z3.Store(seen, elem.t[0], elem.t[1], True)
         if coll.kind in ('item', 'value'):
